@@ -117,6 +117,16 @@ func c06scenarios(probe string) []c06scn {
 		}
 		out = append(out, c06scn{"three imports sharing a package name", files, cfg})
 	}
+	{ // templated parameters that refer to each other through StructName and functions: the fix-point loop
+		// visits them in map order
+		cfg := probeRoot()
+		cfg["all"] = true
+		cfg["filename"] = "{{.StructName | firstLower}}_{{.InterfaceName | lower}}_gen_test.go"
+		cfg["dir"] = "{{.InterfaceDir}}/{{.StructName | trimPrefix \"Mock\"}}"
+		cfg["pkgname"] = "{{.StructName | firstLower}}"
+		cfg["packages"] = core.M{P("a"): core.M{}, P("b"): core.M{"config": core.M{"structname": "{{.Mock}}{{.InterfaceName}}X"}, "interfaces": core.M{"B1": core.M{"config": core.M{"structname": "Lit"}}}}}
+		out = append(out, c06scn{"templated values referring to each other", map[string]string{"a/a.go": goIface("a", "A1", "aLow"), "b/b.go": goIface("b", "B1", "B2")}, cfg})
+	}
 	{ // recursive siblings whose paths sort around '/'
 		cfg := probeRoot()
 		cfg["packages"] = core.M{
@@ -135,6 +145,9 @@ func c06scenarios(probe string) []c06scn {
 func C06(c *core.Ctx) error {
 	bin, sites, err := buildMO(c)
 	if err != nil {
+		return err
+	}
+	if err := c.BuildMockery(); err != nil {
 		return err
 	}
 	quick := core.Quick(c.Tier)
@@ -258,6 +271,23 @@ func C06(c *core.Ctx) error {
 			if r.Res.Exit != 0 || core.HashSnapshot(snap) != base.hash {
 				report(fmt.Sprintf("run%d-in-place", k+2), nil, obs{r.Res.Exit, "", snap, firstN(r.Res.Stderr, 300)}, base)
 			}
+		}
+		// free-running runs of the *uninstrumented* binary (Go's own random map order, fresh process, later time):
+		// must give the same tree as the instrumented binary under the sorted order. A difference is a real
+		// counterexample (and would also expose an instrumentation that changed behaviour); agreement is only
+		// complementary evidence, the verdict for iteration order comes from the exploration above.
+		for k := 0; k < 3; k++ {
+			m, err := c.NewModule(newDir(), files)
+			if err != nil {
+				break
+			}
+			r := c.RunMockery(m.Dir, nil)
+			totalRuns++
+			snap := core.Snapshot(m.Dir)
+			if r.Exit != base.exit || core.HashSnapshot(snap) != base.hash {
+				report(fmt.Sprintf("free-run-%d-uninstrumented", k), nil, obs{r.Exit, "", snap, firstN(r.Stderr, 300)}, base)
+			}
+			m.Remove()
 		}
 		for p := range baseSnap {
 			if strings.HasSuffix(p, ".go") {
